@@ -4,6 +4,7 @@ import (
 	"go/ast"
 	"go/token"
 	"go/types"
+	"reflect"
 )
 
 // fieldInfo holds information about a struct field for code generation.
@@ -32,10 +33,15 @@ func (t *Transformer) transformStruct(ws *WireStruct, pkg *types.Package) *Kesso
 
 	// Collect fields to include (skip unexported fields from external packages)
 	var fieldInfos []fieldInfo
-	for field := range st.Fields() {
+	for i := range st.NumFields() {
+		field := st.Field(i)
 		if ws.Fields[0] == "*" || contains(ws.Fields, field.Name()) {
 			// Skip unexported fields from external packages
 			if isExternalPkg && !field.Exported() {
+				continue
+			}
+			// wire.Struct(new(T), "*") leaves out fields tagged `wire:"-"`
+			if ws.Fields[0] == "*" && reflect.StructTag(st.Tag(i)).Get("wire") == "-" {
 				continue
 			}
 			fieldInfos = append(fieldInfos, fieldInfo{
